@@ -71,12 +71,12 @@ def insert_canaries(text, info):
         # find body open: first line in [a,b] (1-based, shifted by offset) that is exactly '{' or starts with '{'
         idx = None
         for j in range(a - 1 + offset, b + offset):
-            if lines[j].strip().startswith('{'):
+            if lines[j].strip().startswith('{ /*@body*/'):
                 idx = j
                 break
         if idx is None:
             continue
-        rest = lines[idx].strip()[1:]
+        rest = lines[idx].strip()[len('{ /*@body*/'):]
         lines[idx] = '{'
         ins = ['proof { assert(false); } // CANARY ' + qual]
         if rest.strip():
